@@ -2,7 +2,7 @@
 import copy, glob, json, os
 from harness import common
 from harness.common import coq_list
-from harness.c12 import EQB, REQ, NAMES, ms_term, tail, nm
+from harness.c12 import EQB, REQ, NAMES, ms_term, tail, nm, effective_argspec, wrap_in_chain
 
 LEAF_GARBAGE = "leaf-garbage"
 LEAF_PROTOCOL_ERRORS = ("BooleanUnslicer only accepts", "NoneUnslicer does not accept", "UnicodeUnslicer only accepts",
@@ -19,8 +19,11 @@ def run(ctx):
                 "argument, positional<->keyword moves, back-reference to an earlier argument of another shape), or a hostile "
                 "FRAMING (count token larger / smaller than what follows, not an INT, missing; a value where a name is expected and "
                 "vice versa; a name without value; the sequence stopping anywhere), plus every required/Optional x positional-count "
-                "x keyword-subset binding of three arguments; fed to a real Broker; non-trivial = the stream reached the "
-                "ArgumentUnslicer/AnswerUnslicer")
+                "x keyword-subset binding of three arguments, plus targets whose RemoteInterface DERIVES from other RemoteInterfaces "
+                "(a sub-interface re-declares a method tighter / looser / retyped / with an argument more or less, inherits it, adds "
+                "one; 2 and 3 levels; every stream to a target of every level: the declaration of the most derived interface that "
+                "declares the method governs, judged by a reference that walks the chain itself); fed to a real Broker; "
+                "non-trivial = the stream reached the ArgumentUnslicer/AnswerUnslicer")
     ctx.assumptions = ["text VALUES in wire trees are ASCII (keyword NAMES are arbitrary byte strings: not UTF-8 -> Violation, "
                        "Schema.utf8_valid compared with Python's decoder); set elements / dict keys are distinct and hashable",
                        "regexp constraints, FailureConstraint, Shared and their-reference gifts are outside the model; RemoteCopy state "
@@ -321,9 +324,11 @@ def guarded(ctx, fn, *a):
         return None
 
 
-def run_call(ctx, S, E, tag, family, argspec, pos, kws, vocab=0, direct=None, per_instance=None, raw=None, flags=None):
+def run_call(ctx, S, E, tag, family, argspec, pos, kws, vocab=0, direct=None, per_instance=None, raw=None, flags=None, inherit=None):
     """raw = (count, children of the `arguments` sequence) replaces the honest framing of pos / kws;
-    flags = "__ignoreUnknown__" | "__acceptUnknown__": the schema is RemoteMethodSchema(<flag>=True, **constraints)"""
+    flags = "__ignoreUnknown__" | "__acceptUnknown__": the schema is RemoteMethodSchema(<flag>=True, **constraints);
+    inherit = dict(chain, level, meth): the target's RemoteInterface is number `level` of a chain of interfaces deriving from
+    one another, the call addresses `meth`; argspec must be effective_argspec(inherit) (None: undeclared there)"""
     if per_instance is None:
         # the interface is declared on the target INSTANCE; instances of one group share one python class
         per_instance = ("g%d" % ctx.rng.randrange(6)) if ctx.rng.random() < 0.3 else False
@@ -334,18 +339,29 @@ def run_call(ctx, S, E, tag, family, argspec, pos, kws, vocab=0, direct=None, pe
         direct = True
     ctx.hist("schema_declared_by", "RemoteMethodSchema(**kwargs)" if direct else "prototype function")
     ctx.hist("unknown_argument_flag", flags or "-")
-    cons = []
-    for n, cs, opt in argspec:
-        c = S.build(cs)
-        cons.append(S.schema.Optional(c, None) if opt else c)
-    res, w = S.call_trial([n for n, _, _ in argspec] + ([flags] if flags else []), cons + ([True] if flags else []),
-                          pos, [(n, x) for n, x in kws], vocab=vocab, direct=direct, per_instance=per_instance, raw=raw)
+    def build_args(spec):
+        cons_ = []
+        for n, cs, opt in spec:
+            c = S.build(cs)
+            cons_.append(S.schema.Optional(c, None) if opt else c)
+        return [n for n, _, _ in spec], cons_
+    world_kw = {}
+    if inherit:
+        world_kw = dict(chain=[{name: build_args([tuple(x) for x in spec]) + (None,) for name, spec in layer} for layer in inherit["chain"]],
+                        level=inherit["level"], meth=inherit["meth"])
+        ctx.hist("inherited_interface", "level %d of %d, %s" % (inherit["level"], len(inherit["chain"]),
+                                                               "declared" if argspec is not None else "undeclared"))
+    names_, cons = build_args(argspec or [])
+    res, w = S.call_trial(names_ + ([flags] if flags else []), cons + ([True] if flags else []),
+                          pos, [(n, x) for n, x in kws], vocab=vocab, direct=direct, per_instance=per_instance, raw=raw, **world_kw)
     out = S.outcome_of(res)
     count, items = raw if raw is not None else S.flat_items(pos, [(n, x) for n, x in kws])
     case = dict(tag=tag, family=family, argspec=argspec, count=count, items=items, direct=direct, per_instance=per_instance, flags=flags)
+    if inherit:
+        case["inherit"] = inherit
     if raw is None:
         case.update(pos=pos, kws=kws)
-    rec = dict(case=case, ms=ms_term(S, w.ms))
+    rec = dict(case=case, ms=ms_term(S, w.ms) if w.ms is not None else None)
     calls = w.target.calls
     if len(calls) > 1:
         ctx.fail("oracle/invoked-twice", "one call sequence invoked the method %d times: %r" % (len(calls), case), replay=case)
@@ -353,16 +369,23 @@ def run_call(ctx, S, E, tag, family, argspec, pos, kws, vocab=0, direct=None, pe
         args, kwargs = calls[0][1], calls[0][2]
         # THE PROPERTY: what user code saw must pass the declared schema (judged by the real constraint objects)
         why = None
-        try:
-            w.ms.checkAllArgs(args, kwargs, True)
-        except S.Violation as v:
-            why = "the implementation's own checkAllArgs: %s" % v
+        if argspec is None or w.ms is None:
+            why = "no interface of the target's resolution order declares the method"
+        elif calls[0][0] != w.meth:
+            why = "remote_%s ran for a call that names %s" % (calls[0][0], w.meth)
+        else:
+            try:
+                w.ms.checkAllArgs(args, kwargs, True)
+            except S.Violation as v:
+                why = "the implementation's own checkAllArgs: %s" % v
         if why is None and not S.py_args_ok(argspec, args, kwargs):
             why = "the reference semantics of the declared constraints"
         if why:
-            ctx.fail("oracle/unchecked-argument-reached-user-code", "remote_m ran with arguments that violate its declared "
-                     "schema (judged by %s): args=%r kwargs=%r; stream %s" % (why, S.canon(list(args)), S.canon(kwargs), str(case)[:1200]),
-                     replay=case)
+            ctx.fail("oracle/unchecked-argument-reached-user-code", "remote_%s ran with arguments that violate its declared "
+                     "schema%s (judged by %s): args=%r kwargs=%r; stream %s"
+                     % (calls[0][0], " -- the declaration of the most derived RemoteInterface of the target's resolution order that "
+                        "declares the method, %r" % (argspec,) if inherit else "", why, S.canon(list(args)), S.canon(kwargs),
+                        str(case)[:1200]), replay=case)
         rec["outcome"] = "invoked"
         rec["args"] = [S.canon(x) for x in args]
         rec["kwargs"] = sorted([n, S.canon(v)] for n, v in kwargs.items())
@@ -400,7 +423,7 @@ def run_call(ctx, S, E, tag, family, argspec, pos, kws, vocab=0, direct=None, pe
                      replay=case)
     ctx.hist("call_outcome", rec["outcome"])
     ctx.hist("call_family", family)
-    ctx.case(["call", argspec, count, items, flags], nontrivial=True)
+    ctx.case(["call", argspec, count, items, flags, inherit], nontrivial=True)
     ctx.sample(dict(kind="call", family=family, argspec=argspec, count=str(count)[:40], items=str(items)[:200], flags=flags, outcome=rec["outcome"]))
     return rec
 
@@ -536,6 +559,51 @@ def flag_cases(S):
     return out
 
 
+def inherit_cases(S):
+    """RemoteInterfaces that derive from RemoteInterfaces: a sub-interface re-declares a method tighter / looser / with
+    another type / with an argument more / with an argument less, inherits it unchanged, adds a method; two and three
+    levels; the target implements the most derived interface, an intermediate one or the root.  Every stream is sent to
+    every level: what governs it is the declaration of the most derived interface AT OR BELOW the implemented one that
+    declares the method (so one stream is accepted at one level and must be refused at the next).
+    -> [(inherit, pos wires, kw wires)]"""
+    B = lambda n: ["ws", False, n, [107] * n]
+    I = lambda v: ["wi", "INT", v, v]
+    big = ["wi", "LONGINT", 5, 2 ** 39]
+    by = lambda mx: ["bytes", mx, 0]
+    a_ = lambda cs, opt=False: ("a", cs, opt)
+    b_ = lambda cs, opt=False: ("b", cs, opt)
+    i32, i1024, i8 = ["int", -1], ["py", "int"], ["int", 8]
+    fam = [
+        # (chain, [(meth, pos, kws)..])
+        ("tighter", [[["m", [a_(by(20)), b_(by(20))]]], [["m", [a_(by(3)), b_(by(5))]]]],
+         [("m", [B(3), B(5)], []), ("m", [B(4), B(1)], []), ("m", [B(1), B(6)], []), ("m", [], [["a", B(20)], ["b", B(1)]]),
+          ("m", [B(21), B(1)], [])]),
+        ("looser", [[["m", [a_(i32)]]], [["m", [a_(i8)]]]], [("m", [big], []), ("m", [I(5)], []), ("m", [], [["a", big]])]),
+        ("retyped", [[["m", [a_(i1024)]]], [["m", [a_(["list", i1024, 2, 0])]]]],
+         [("m", [I(5)], []), ("m", [["wo", "list", [I(5)]]], []), ("m", [["wo", "list", [I(5), I(6), I(7)]]], [])]),
+        ("argument-added", [[["m", [a_(i1024)]]], [["m", [a_(i1024), b_(i1024)]]]],
+         [("m", [I(5)], []), ("m", [I(5), I(6)], []), ("m", [I(5)], [["b", I(6)]]), ("m", [], [["b", I(6)]])]),
+        ("argument-removed", [[["m", [a_(i1024), b_(i1024)]]], [["m", [a_(i1024)]]]],
+         [("m", [I(5), I(6)], []), ("m", [I(5)], []), ("m", [I(5)], [["b", I(6)]])]),
+        ("optional-tightened", [[["m", [a_(i1024), b_(by(3), True)]]], [["m", [a_(i1024), b_(by(1), True)]]]],
+         [("m", [I(5)], [["b", B(2)]]), ("m", [I(5), B(2)], []), ("m", [I(5)], []), ("m", [I(5), B(1)], [])]),
+        ("inherited-and-added", [[["m", [a_(by(3))]]], [["n", [a_(by(20))]]]],
+         [("m", [B(4)], []), ("m", [B(3)], []), ("n", [B(4)], []), ("n", [B(21)], [])]),
+        ("override-in-the-middle", [[["m", [a_(by(20))]]], [["m", [a_(by(3))]]], [["n", [a_(i1024)]]]],
+         [("m", [B(4)], []), ("m", [B(3)], []), ("n", [I(5)], []), ("n", [B(1)], []), ("m", [B(21)], [])]),
+        ("override-twice", [[["m", [a_(by(20))]]], [["m", [a_(by(10))]]], [["m", [a_(by(3))]]]],
+         [("m", [B(4)], []), ("m", [B(11)], []), ("m", [B(3)], []), ("m", [B(21)], [])]),
+        ("override-at-the-leaf", [[["m", [a_(by(3))]], ["n", [a_(i32)]]], [], [["m", [a_(by(20))]]]],
+         [("m", [B(4)], []), ("m", [B(21)], []), ("n", [big], []), ("n", [I(5)], [])]),
+    ]
+    out = []
+    for tag, chain, streams in fam:
+        for level in range(len(chain)):
+            for meth, pos, kws in streams:
+                out.append((dict(tag=tag, chain=chain, level=level, meth=meth), pos, kws))
+    return out
+
+
 def method_name_cases(ctx, S, E):
     """CallUnslicer stage 2: the method NAME of a hand-built call -- not UTF-8, non-ASCII text, unknown, empty -- must fail
     that one call with a Violation (the stages before the arguments are not in the Coq model: oracle only)"""
@@ -625,23 +693,67 @@ def callseq_children():
     ]
 
 
+CALLSEQ_CHAIN = [   # root first; what each RemoteInterface of the chain declares itself
+    [["m", [("a", ["py", "int"], False), ("b", ["bytes", 3, 0], True)]], ["n", [("a", ["int", -1], False)]]],
+    [["m", [("a", ["list", ["py", "int"], 2, 0], False)]]],                      # re-declares m with another type
+    [["k", [("a", ["py", "bytes"], False)]], ["n", [("a", ["int", 8], False)]]],   # adds k, re-declares n looser
+]
+
+
+def callseq_inherit_children():
+    """(tag, method name, arguments): call sequences for the chain above, each sent to a target of EVERY level"""
+    five, lst = ["wi", "INT", 5, 5], ["wo", "list", [["wi", "INT", 5, 5]]]
+    big = ["wi", "LONGINT", 5, 2 ** 39]
+    return [("m-int", "m", ["wa", 1, [five]]), ("m-list", "m", ["wa", 1, [lst]]),
+            ("m-int-kw-b", "m", ["wa", 1, [five, ["ws", False, 1, [98]], ["ws", False, 1, [65]]]]),
+            ("n-small", "n", ["wa", 1, [five]]), ("n-big", "n", ["wa", 1, [big]]),
+            ("k-bytes", "k", ["wa", 1, [["ws", False, 1, [65]]]]), ("k-int", "k", ["wa", 1, [five]]),
+            ("undeclared", "zz", ["wa", 1, [five]])]
+
+
 def callseq_cases(ctx, S, E):
     recs = []
-    for tag, fn in callseq_children():
-        res, w, children = S.call_seq_trial(["a", "b"], [int, S.schema.Optional(bytes, None)], fn)
+    todo = [(tag, fn, None) for tag, fn in callseq_children()]
+    rq = ["wi", "INT", 1, 1]
+    for level in range(len(CALLSEQ_CHAIN)):
+        for tag, meth, args in callseq_inherit_children():
+            fn = (lambda meth_, args_: lambda c, c2: [rq, ["wi", "INT", c, c], ["ws", False, len(meth_), list(meth_.encode())], args_])(meth, args)
+            todo.append(("inherit-level%d-%s" % (level, tag), fn, dict(chain=CALLSEQ_CHAIN, level=level, meth=meth)))
+    for tag, fn, inh in todo:
+        if inh is None:
+            res, w, children = S.call_seq_trial(["a", "b"], [int, S.schema.Optional(bytes, None)], fn)
+            case = dict(tag=tag, method="m(a=int, b=Optional(bytes))", children=children)
+            spec = [("a", ["py", "int"], False), ("b", ["py", "bytes"], True)]
+        else:
+            def build_args(spec_):
+                cons_ = [S.schema.Optional(S.build(cs), None) if opt else S.build(cs) for _, cs, opt in spec_]
+                return ([n for n, _, _ in spec_], cons_, None)
+            res, w, children = S.call_seq_trial([], [], fn, chain=[{name: build_args(sp) for name, sp in layer} for layer in inh["chain"]],
+                                                level=inh["level"], meth=inh["meth"])
+            case = dict(tag=tag, inherit=inh, children=children)
+            spec = effective_argspec(inh)
         out = S.outcome_of(res)
-        case = dict(tag=tag, method="m(a=int, b=Optional(bytes))", children=children)
-        rec = dict(case=case, children=children, clid=w.clid, clid2=w.clid2, ms=ms_term(S, w.ms))
+        rec = dict(case=case, children=children, clid=w.clid, clid2=w.clid2, ms=ms_term(S, w.ms) if w.ms is not None else None,
+                   layers=[[(n, ms_term(S, m_)) for n, m_ in layer] for layer in w.layers])
         calls = w.target.calls
         if calls:
             rec["outcome"] = "invoked"
             rec["args"] = [S.canon(x) for x in calls[0][1]]
             rec["kwargs"] = sorted([n, S.canon(v)] for n, v in calls[0][2].items())
-            try:
-                w.ms.checkAllArgs(calls[0][1], calls[0][2], True)
-            except S.Violation as v:
-                ctx.fail("oracle/unchecked-argument-reached-user-code", "remote_m ran with arguments that violate its declared schema (%s): "
-                         "%r; call children %s" % (v, (rec["args"], rec["kwargs"]), str(children)[:600]), replay=case)
+            why = None
+            if spec is None or w.ms is None or calls[0][0] != w.meth:
+                why = "remote_%s ran, the call names %r which %s" % (calls[0][0], w.meth, "no interface of the target's resolution "
+                                                                      "order declares" if spec is None else "is another method")
+            else:
+                try:
+                    w.ms.checkAllArgs(calls[0][1], calls[0][2], True)
+                except S.Violation as v:
+                    why = str(v)
+                if why is None and not S.py_args_ok(spec, calls[0][1], calls[0][2]):
+                    why = "the reference semantics of the declaration %r" % (spec,)
+            if why:
+                ctx.fail("oracle/unchecked-argument-reached-user-code", "remote_%s ran with arguments that violate its declared schema (%s): "
+                         "%r; call children %s" % (calls[0][0], why, (rec["args"], rec["kwargs"]), str(case)[:900]), replay=case)
         elif w.t2.calls:
             rec["outcome"] = "noschema"
         elif not w.alive():
@@ -680,8 +792,11 @@ def correspond_callseq(ctx, S, recs):
         return "(CTok %s)" % S.to_wobj(ch)
     rows = []
     for r in recs:
-        env = ("{| be_objs := [(%d, {| t_iface := Some [(%d, %s)]; t_methodSchema := None |}); (%d, {| t_iface := None; t_methodSchema := None |})]; "
-               "be_require := false; be_active := [] |}" % (r["clid"], nm("m"), r["ms"], r["clid2"]))
+        # the table of the addressed object: the own method tables of the interfaces of its resolution order (the interface
+        # itself, then its bases), read off the real interface objects one by one -- Schema.iface_table puts them together
+        tbl = "iface_table %s" % coq_list([coq_list(["(%d, %s)" % (nm(n), t) for n, t in layer]) for layer in r["layers"]])
+        env = ("{| be_objs := [(%d, {| t_iface := Some (%s); t_methodSchema := None |}); (%d, {| t_iface := None; t_methodSchema := None |})]; "
+               "be_require := false; be_active := [] |}" % (r["clid"], tbl, r["clid2"]))
         ea = coq_list([S.to_obj(x) for x in r.get("args", [])])
         ek = coq_list(["(%d, %s)" % (nm(n), S.to_obj(x)) for n, x in r.get("kwargs", [])])
         rows.append("(%s, %s, %s, %s)" % (env, coq_list([citem(c) for c in r["children"]]), ea, ek))
@@ -817,8 +932,10 @@ def call_cases(ctx, S, E):
     for p in sorted(glob.glob(os.path.join(common.VERIF, "corpus", "C02", "call-*.json"))):
         w = json.load(open(p))
         raw = (w["raw"][0], w["raw"][1]) if "raw" in w else None
-        r = guarded(ctx, run_call, S, E, "corpus:" + os.path.basename(p), w.get("family", "corpus"), [tuple(x) for x in w["argspec"]],
-                    w.get("pos", []), w.get("kws", []), w.get("vocab", 0), None, None, raw, w.get("flags"))
+        inh = w.get("inherit")
+        r = guarded(ctx, run_call, S, E, "corpus:" + os.path.basename(p), w.get("family", "corpus"),
+                    effective_argspec(inh) if inh else [tuple(x) for x in w["argspec"]],
+                    w.get("pos", []), w.get("kws", []), w.get("vocab", 0), None, None, raw, w.get("flags"), inh)
         if r and w.get("expect") and r["outcome"] != w["expect"]:
             ctx.fail("oracle/regression-" + os.path.basename(p)[:-5], "corpus witness %s: expected %s, got %s" % (p, w["expect"], r["outcome"]), replay=w)
         recs.append(r)
@@ -835,6 +952,9 @@ def call_cases(ctx, S, E):
     for tag, argspec, pos, kws in FIXED_CALLS:
         recs.append(guarded(ctx, run_call, S, E, tag, "fixed", argspec, pos, kws))
     guarded(ctx, lambda ctx_, S_, E_: method_name_cases(ctx_, S_, E_), S, E)
+    for inh, pos, kws in inherit_cases(S):
+        recs.append(guarded(ctx, run_call, S, E, "inherit:" + inh["tag"], "inherited-interface", effective_argspec(inh), pos, kws,
+                            0, None, None, None, None, inh))
     for argspec, pos, kws in binding_cases(S):
         recs.append(guarded(ctx, run_call, S, E, "binding", "binding", argspec, pos, kws, 0, None, False))
     for argspec, count, items in framing_cases(S):
@@ -846,6 +966,8 @@ def call_cases(ctx, S, E):
         cs, ws = pend_case(S, rng, elem, "list")
         recs.append(guarded(ctx, run_call, S, E, "pend-sweep", "pend", [("a", cs, False)], [ws], []))
     recs += remote_sweep(ctx, S, E)
+    import random
+    irng = random.Random(977 * ctx.seed + 2)          # its own stream: which generated calls address a derived interface
     for i in range(ctx.n(330, 6000)):
         nargs = rng.choice([1, 1, 2, 2, 3])
         argspec = []
@@ -899,7 +1021,10 @@ def call_cases(ctx, S, E):
             count = rng.choice([n0 + 1, max(0, n0 - 1), 0, nargs + 1, n0 + 2])
             recs.append(guarded(ctx, run_call, S, E, "gen", "count", argspec, [], [], vocab, None, None, (count, items)))
             continue
-        recs.append(guarded(ctx, run_call, S, E, "gen", family, argspec, pos, kws, vocab))
+        # one in eight of them is addressed to a target whose RemoteInterface is part of a chain in which another declaration
+        # of the same method stands above or below the one in force
+        inh = wrap_in_chain(S, argspec, irng) if irng.random() < 0.12 else None
+        recs.append(guarded(ctx, run_call, S, E, "gen", family, argspec, pos, kws, vocab, None, None, None, None, inh))
     return [r for r in recs if r]
 
 
@@ -1121,7 +1246,9 @@ def correspond(ctx, S, calls, answers):
         ctx.fail("correspondence/" + kind, what, replay=replay, has_input=False)
 
     CODE = {"invoked": 1, "violation": 2, "dead": 3, "failed": 5}
-    calls = [r for r in calls if r["outcome"] in CODE]          # duplicate dict keys (a protocol error) are not modelled
+    # duplicate dict keys (a protocol error) are not modelled; a method that no interface of the target's resolution order
+    # declares has no schema to run the arguments machine under (the call-sequence correspondence covers it)
+    calls = [r for r in calls if r["outcome"] in CODE and r["ms"] is not None]
 
     def count_term(c):
         return [] if c is None else ["(WInt 129 %d %d)" % (c, c)] if isinstance(c, int) else [S.to_wobj(c)]
